@@ -74,7 +74,9 @@ parentheses: literals, variables, `( e )`, the 17 operand-taking infix operators
 `e[i]` on a literal / parenthesised / subscripted / call base, identifier chains `a.b?.c[i]?[j]`,
 function calls `f(k1=v1, …)`, and array literals `[x, ...y, …]` of any length (no trailing
 comma) up to the dimension limit, denoting the CONSTANT array when every entry is a constant (the
-parser's folding, `S.foldArray`) and an `Array` node otherwise.  Argument lists denote their arguments SORTED BY NAME
+parser's folding, `S.foldArray`) and an `Array` node otherwise, map literals `{k: v, ...m, …}`
+with string / integer / boolean keys (constant folding `S.foldMap`: an all-constant map is one
+constant in which a later duplicate key overrides an earlier one).  Argument lists denote their arguments SORTED BY NAME
 (`Expr.sortKwargs`), which is the canonical form of the `HashMap` the parser builds.  `S.toks` spells it as tokens, `S.erase` is the
 AST the documentation assigns to it.  `S.DocWP L s` says that `s` has at least the parentheses
 the documented levels `L` require (any number of redundant ones anywhere).  The theorems say that
@@ -84,8 +86,8 @@ limits, for EVERY binding-power table with `TableOK`, hence (by `bp_table_matche
 powers parser.rs has now.
 
 Not covered by these theorems (correspondence run only): trailing commas and the rejection of a
-repeated argument name, `loop.*` inside a loop, slices, map literals, list comprehensions, component calls, and the
-byte-level lexer (whitespace). -/
+repeated argument name, `loop.*` inside a loop, slices, list comprehensions, component calls, and the byte-level lexer
+(whitespace; `}}` inside nested map literals needs a space, observation O8). -/
 
 /-- a token that can only end an expression: the loop does not know it and it does not continue
 an identifier chain or open an argument list -/
@@ -210,6 +212,14 @@ example :
     ∧ (S.index (.arr (.itemCons false (.int 1) (.itemCons true (.var "xs") (.itemCons false
         (.binary .Plus (.var "a") (.int 1)) .itemNil)))) (.int 0)).DocWP docLevels := by
   refine ⟨by simp [S.erase, S.eraseItems, S.foldArray, arrayAsConst], by decide +kernel⟩
+
+/-- `{"a": 1, ...m}["a"]` is a subscripted `Map` node with its entries in source order -/
+example : (S.index (.mapLit (.entryKV (.str "a") (.int 1) (.entrySpread (.var "m") .entryNil)))
+      (.str "a")).DocWP docLevels
+    ∧ (S.mapLit (.entryKV (.str "a") (.int 1) (.entrySpread (.var "m") .entryNil))).erase
+      = .map [.keyValue (.str ['a']) (.const (.i64 1)), .spread (.var "m")] := by
+  refine ⟨by decide +kernel, by simp [S.erase, S.eraseEntries, S.foldMap, S.mapLitOf, S.entryLit,
+    SKey.key, Expr.isLiteral]⟩
 
 /-- arguments come out sorted by name whatever their order in the source -/
 example : (S.call "f" (.argCons "to" (.int 1) (.argCons "from" (.int 2) .argNil))).erase
